@@ -1,6 +1,7 @@
 import RactorModel.Lemmas.FactoryFate
 import RactorModel.Lemmas.FactoryCountW
 import RactorModel.Lemmas.FactorySlotInst
+import RactorModel.Lemmas.FactoryHandler
 
 /-!
 # C13 — Factory: every job meets exactly one fate, never runs twice
@@ -14,37 +15,37 @@ open Factory
 
 /-! ## Each rejection carries the reason of the branch that made it, and is made once -/
 
-/-- what a rejection appends to the history: one discard report (to the handler if one is
-configured) and, if the submitter attached an acceptance port that is still unanswered, the
+/-- what a rejection appends to the history: one discard report, addressed to the discard
+handler `h` that is installed at that moment (`none`: no handler configured), and, if the submitter attached an acceptance port that is still unanswered, the
 job handed back through it — both exactly once. -/
-def rejection (hasHandler : Bool) (r : Reason) (j : Job) : List Ev :=
-  Ev.discard r j.id hasHandler :: (if j.port then [Ev.reply j.id true] else [])
+def rejection (h : Option Nat) (r : Reason) (j : Job) : List Ev :=
+  Ev.discard r j.id h :: (if j.port then [Ev.reply j.id true] else [])
 
-theorem reject_log (e : Env) (r : Reason) (j : Job) :
-    ((e.discard r j).reject j).log = e.log ++ rejection e.hasHandler r j := by
+theorem reject_log (e : Env) (h : Option Nat) (r : Reason) (j : Job) :
+    ((e.discard h r j).reject j).log = e.log ++ rejection h r j := by
   unfold Env.reject Env.discard Env.emit rejection
   split <;> simp
 
 /-- (TTL) a job that is already expired when the factory sees it is rejected with `TtlExpired`
 and nothing else happens to it: no routing, no queueing. -/
 theorem dispatch_expired (w : W) (j : Job) (h : j.expired w.env.now = true) :
-    (w.dispatch j).env.log = w.env.log ++ rejection w.env.hasHandler .ttlExpired j ∧
+    (w.dispatch j).env.log = w.env.log ++ rejection w.handler .ttlExpired j ∧
     (w.dispatch j).queue = w.queue ∧ (w.dispatch j).pool = w.pool := by
   unfold W.dispatch
   simp only [h, if_true]
-  exact ⟨reject_log _ _ _, trivial, trivial⟩
+  exact ⟨reject_log _ _ _ _, trivial, trivial⟩
 
 /-- (shutdown) once `DrainRequests` has been handled every later job is rejected with
 `Shutdown`; it never reaches a worker or a queue. -/
 theorem dispatch_draining (w : W) (j : Job) (h : j.expired w.env.now = false)
     (hd : w.drain ≠ .notDraining) :
-    (w.dispatch j).env.log = w.env.log ++ rejection w.env.hasHandler .shutdown j ∧
+    (w.dispatch j).env.log = w.env.log ++ rejection w.handler .shutdown j ∧
     (w.dispatch j).queue = w.queue ∧ (w.dispatch j).pool = w.pool := by
   unfold W.dispatch
   have : (w.drain == Drain.notDraining) = false := by
     cases hw : w.drain <;> simp_all
   simp only [h, this, Bool.false_eq_true, if_false]
-  exact ⟨reject_log _ _ _, trivial, trivial⟩
+  exact ⟨reject_log _ _ _ _, trivial, trivial⟩
 
 
 /-! ## Conservation: every accepted job is in exactly one place
@@ -170,6 +171,74 @@ example : C13.fateOk f4Info ((init f4Case).runSteps f4Steps).env.log = false := 
 example : noStaleCompletion f4Info ((init f4Case).runSteps f4Steps).env.log = false := by decide +kernel
 example : total 3 ((init f4Case).runSteps f4Steps) = 1 := by decide +kernel
 
+/-! ## Which handler sees a discard
+
+`UpdateSettings` can replace the discard handler while jobs are queued — at the factory and, under
+every router (sticky queueing included: it parks same-key jobs in a busy worker's own queue), in
+each worker slot, which keeps its own copy. `curOf h0 pre` is the handler installed by the latest
+update the factory had handled when the history was `pre` (`h0` before any update). -/
+
+/-- (handler sync) For every case configuration and EVERY sequence of harness steps — handler
+updates interleaved with dispatches, completions, deaths, resizes, drains, a factory held busy —
+each worker slot's copy of the discard handler is the factory's current handler. -/
+theorem handler_sync (c : CaseCfg) (steps : List Step) :
+    ∀ p ∈ ((init c).runSteps steps).pool, p.handler = ((init c).runSteps steps).handler := by
+  have h := hinv_always c steps
+  intro p hp
+  rw [h.hs.pool p hp, h.hs.fac]
+
+/-- the factory's handler is the one installed by the latest update it has handled -/
+theorem current_handler_is_latest_installed (c : CaseCfg) (steps : List Step) :
+    ((init c).runSteps steps).handler = curOf (initHandler c) ((init c).runSteps steps).env.log :=
+  (hinv_always c steps).hs.fac
+
+/-- (current handler) For every case configuration and EVERY sequence of harness steps: each
+discard of the history — whatever its reason, whether it was made by the factory (queue, rate
+limiter, drain, TTL at the head, `post_stop`) or out of a worker's own queue (TTL, load shedding) —
+is reported to the handler installed by the latest update handled before it, never to a stale
+copy; with no handler installed (`none`) it is reported to nobody. -/
+theorem discards_reach_current_handler (c : CaseCfg) (steps : List Step) (pre post : List Ev)
+    (r : Reason) (id : Nat) (h : Option Nat)
+    (hl : ((init c).runSteps steps).env.log = pre ++ Ev.discard r id h :: post) :
+    h = curOf (initHandler c) pre := by
+  have ok := (hinv_always c steps).ok
+  rw [hl] at ok
+  exact discardsOk_at _ _ _ _ _ _ ok
+
+/-- handling an update installs the new handler at the factory and in every slot at once -/
+theorem update_installs_everywhere (w : W) (h : Option Nat) :
+    (w.handleMsg (.setHandler h)).handler = h ∧ (∀ p ∈ (w.handleMsg (.setHandler h)).pool, p.handler = h) ∧
+    (w.handleMsg (.setHandler h)).env.log = w.env.log ++ [Ev.installed h] := by
+  refine ⟨rfl, ?_, rfl⟩
+  intro x hx
+  obtain ⟨y, _, rfl⟩ := List.mem_map.mp hx
+  rfl
+
+/-- handling any other message changes no handler, and every event it appends is fine for the
+installed handler `h`: no installation, every discard addressed to `h` -/
+theorem other_messages_keep_handler (w : W) (m : FMsg) (hm : ∀ hd, m ≠ .setHandler hd) (h : Option Nat)
+    (hf : w.handler = h) (hp : ∀ p ∈ w.pool, p.handler = h) :
+    (w.handleMsg m).handler = h ∧ (∀ p ∈ (w.handleMsg m).pool, p.handler = h) ∧
+    ∃ new, (w.handleMsg m).env.log = w.env.log ++ new ∧ ∀ ev ∈ new, evOk h ev = true := by
+  have q := hq_handleMsg w m hm ⟨hf, hp⟩
+  exact ⟨q.hs.fac, q.hs.pool, q.ext⟩
+
+/-- witness (the history that exposes a handler update which skips the worker copies under sticky
+queueing): job 3 (TTL 1 ms) waits in the busy worker's own queue, the handler is replaced by
+handler 1, the worker dies; the replacement finds job 3 expired — reported to handler 1. -/
+def stickyCase : CaseCfg :=
+  { cfg := { router := .sq, prioQueue := true, hasHandler := true, table := [], hasCC := false }, n := 1, disc := some (2, .oldest), rl := none }
+def stickySteps : List Step :=
+  [⟨.nop, 0, 2000000, 3000000⟩,
+   ⟨.dispatch 2 3 18270091135093349626 none false, 3000000, 4000000, 5000000⟩,
+   ⟨.dispatch 3 3 18270091135093349626 (some 1000000) false, 5000000, 6000000, 7000000⟩,
+   ⟨.setHandler (some 1), 7000000, 8000000, 9000000⟩,
+   ⟨.kill 0, 9000000, 10000000, 11000000⟩]
+/-- the discards of a history -/
+def discardsOf (w : W) : List (Reason × Nat × Option Nat) :=
+  w.env.log.filterMap fun | .discard r id h => some (r, id, h) | _ => none
+example : discardsOf ((init stickyCase).runSteps stickySteps) = [(.ttlExpired, 3, some 1)] := by decide +kernel
+
 end C13
 
 #print axioms C13.reject_log
@@ -183,3 +252,8 @@ end C13
 #print axioms C13.one_job_per_death_partial
 #print axioms C13.die_loses_only_held
 #print axioms C13.dispatchJob_to_dead_keeps_job
+#print axioms C13.handler_sync
+#print axioms C13.current_handler_is_latest_installed
+#print axioms C13.discards_reach_current_handler
+#print axioms C13.update_installs_everywhere
+#print axioms C13.other_messages_keep_handler
